@@ -19,12 +19,17 @@ WALL = {"quick": 1200, "thorough": 4 * 3600}
 
 
 def gen_cases(rng, tier, count=None):
-    count = count or (900 if tier == "quick" else 16000)
+    count = count or (1200 if tier == "quick" else 16000)
     out = []
     for i in range(count):
         if i % 3 == 2:
             a = C.ALGOS[(i // 3) % len(C.ALGOS)]
-            c = gen.algo_case(rng, a, tier, n_choices=[100, 150, 200, 300] if tier == "quick" else [100, 200, 400, 800])
+            kind = "ulps" if (a == "Zooming" and rng.random() < 0.4) or rng.random() < 0.05 else None
+            c = gen.algo_case(rng, a, tier, box_kind=kind,
+                              n_choices=[100, 150, 200, 300] if tier == "quick" else [100, 200, 400, 800])
+            if a == "Zooming":
+                c["params"] = {"nu": float(10 ** rng.uniform(-0.5, 1.5)), "rho": float(rng.uniform(0.4, 0.95))}
+                c["T"] = c["n"]
             if a in C.TREE_BANDITS:
                 from .treeshared import tree_params
                 c["params"] = tree_params(rng, a)
